@@ -143,10 +143,12 @@ Lemma eval_rules_pass1 c inp rs :
   exists k ok reps,
     eval_rules c Never inp {| x_matches := None; x_prev := prev; x_disabled := dis |} rs false s
     = (upd s (pend s ++ reps) k, inl ok)
-    /\ (ok = true -> reps = r_fold c inp dis ms prev rs).
+    /\ (ok = true -> reps = r_fold c inp dis ms prev rs)
+    /\ (exists rest, r_fold c inp dis ms prev rs = reps ++ rest).
 Proof.
   induction rs as [|r rs IH]; intros dis ms prev s Hw; cbn [eval_rules r_fold wf_rules] in *.
-  - exists (nchecks s), true, []. unfold ret. rewrite app_nil_r, upd_id. split; reflexivity.
+  - exists (nchecks s), true, []. unfold ret. rewrite app_nil_r, upd_id. split; [reflexivity|]. split; [reflexivity|].
+    exists []. reflexivity.
   - apply andb_true_iff in Hw as [Hw1 Hw2].
     unfold bindM.
     destruct (eval_rule_inner_pass1 c inp {| x_matches := None; x_prev := prev; x_disabled := dis |} ms r false
@@ -155,10 +157,13 @@ Proof.
       assert (Hlen : length (prev ++ [v]) = S (length prev)) by (rewrite app_length; cbn; lia).
       rewrite <- Hlen in Hw2.
       destruct (IH dis (skipn (r_nvars r) ms) (prev ++ [v]) (upd s (pend s ++ reported_of c r v) k1) Hw2)
-        as [k2 [ok [reps [E2 Hok]]]].
+        as [k2 [ok [reps [E2 [Hok [rest Hrest]]]]]].
       exists k2, ok, (reported_of c r v ++ reps). rewrite E2. cbn [pend upd evs]. rewrite <- app_assoc.
-      split; [reflexivity|]. intros H. rewrite (Hok H). reflexivity.
-    + exists k1, false, []. unfold ret. rewrite app_nil_r. split; [reflexivity|discriminate].
+      split; [reflexivity|]. split.
+      * intros H. rewrite (Hok H). reflexivity.
+      * exists rest. rewrite Hrest. apply app_assoc.
+    + exists k1, false, []. unfold ret. rewrite app_nil_r. split; [reflexivity|]. split; [discriminate|].
+      eexists. reflexivity.
 Qed.
 
 Lemma sub_flags_all a b : length a = length b -> sub_flags a b ->
@@ -219,7 +224,7 @@ Proof.
       unfold bindM at 1. rewrite fixup_list'. cbn [x_disabled pend upd evs nchecks].
       unfold bindM at 1.
       match goal with |- context [eval_rules c Never inp ?x (s_rules sc) false ?st] =>
-        destruct (eval_rules_pass1 c inp (s_rules sc) D m [] st Hwr) as [k2 [ok [reps [E2 Hok]]]]; rewrite E2
+        destruct (eval_rules_pass1 c inp (s_rules sc) D m [] st Hwr) as [k2 [ok [reps [E2 [Hok _]]]]]; rewrite E2
       end.
       destruct ok.
       * (* every rule decided: the pending rules are the result *)
